@@ -166,3 +166,41 @@ Proof.
   unfold emitted_pruned_at in A. cbn [crun cstep app shared nth_error] in A.
   rewrite E in A. congruence.
 Qed.
+
+(** *** position, not content
+    A cursor prunes the POSITION it stands on.  A pruned set keyed by the
+    content of the cell (its hash: seeded mutation C18-r4m1) — or by the
+    identity of the cell when equal subtrees are one object, as in a tree that
+    came from a BOC (tongo before the repair "fix: prune positions, not cells")
+    — prunes every other occurrence of that content too.  For the dictionary
+    {0 -> 7, 1 -> 7} (one-bit keys; the two leaves are equal) the proof for key
+    1 prunes the sibling leaf 0; keyed by content it prunes the leaf of key 1
+    as well and reveals nothing. *)
+Definition bytes_eqb (a b : bytes) : bool :=
+  Nat.eqb (length a) (length b) && forallb (fun p => N.eqb (fst p) (snd p)) (combine a b).
+
+Definition same_content (root : cell) (p q : list nat) : bool :=
+  match subcell root p, subcell root q with
+  | Some x, Some y =>
+      match hd_at sha256 x 0, hd_at sha256 y 0 with
+      | Ok (h1, _), Ok (h2, _) => bytes_eqb h1 h2
+      | _, _ => false
+      end
+  | _, _ => false
+  end.
+
+Definition prove_key_by_content (root : cell) (key : bits) : res cell :=
+  do w <- prove_walk (S (length key)) root key (length key) (length key) [] [] [];
+  let '(pruned, _, _, _) := w in
+  create_proof sha256 (fun p => existsb (same_content root p) pruned) root.
+
+Definition twin_leaf : cell := Cell false 0 0 ([false; false] ++ bits_of 32 7) [].
+Definition twin_dict : cell := Cell false 0 0 [false; false] [twin_leaf; twin_leaf].
+
+Theorem content_keyed_prune_refuted :
+  (* by position: sibling pruned, the leaf of the key kept *)
+  pruned_at (Some (Some (prove_key sha256 twin_dict [true] 32))) [0%nat] = Some true /\
+  pruned_at (Some (Some (prove_key sha256 twin_dict [true] 32))) [1%nat] = Some false /\
+  (* by content: the leaf of the proven key is pruned as well *)
+  pruned_at (Some (Some (prove_key_by_content twin_dict [true]))) [1%nat] = Some true.
+Proof. repeat split; vm_compute; reflexivity. Qed.
